@@ -28,9 +28,11 @@ pub mod lib {
     macro_rules! vec { () => { std::vec::Vec::new() }; ($($x:expr),+ $(,)?) => { std::vec![$($x),+] }; ($v:expr; $n:expr) => {{ let n = $n; kani::assume(n <= 128); std::vec![$v; n] }}; }
     /// helpers table: a real (tiny) map - exact semantics for up to 3 keys
     #[derive(Clone)]
-    pub struct HashMap<K, V> { pub k: [Option<K>; 3], pub v: [Option<V>; 3], pub n: usize }
+    pub struct HashMap<K, V> { pub k: [Option<K>; 3], pub v: [Option<V>; 3], pub n: usize,
+                               /// ghost: bumped by every mutation, so that compiled code can remember which registrations it saw
+                               pub ver: u32 }
     impl<K: Copy + PartialEq, V: Copy> HashMap<K, V> {
-        pub fn new() -> Self { HashMap { k: [None; 3], v: [None; 3], n: 0 } }
+        pub fn new() -> Self { HashMap { k: [None; 3], v: [None; 3], n: 0, ver: 0 } }
         fn find(&self, key: &K) -> Option<usize> {
             let mut i = 0;
             let mut r = None;
@@ -39,6 +41,7 @@ pub mod lib {
         }
         pub fn get(&self, key: &K) -> Option<&V> { match self.find(key) { Some(i) => self.v[i].as_ref(), None => None } }
         pub fn insert(&mut self, key: K, val: V) -> Option<V> {
+            self.ver = self.ver.wrapping_add(1);
             match self.find(&key) {
                 Some(i) => self.v[i].replace(val),
                 None => { assert!(self.n < 3, "harness container capacity exceeded"); self.k[self.n] = Some(key); self.v[self.n] = Some(val); self.n += 1; None }
@@ -120,7 +123,7 @@ pub mod jit {
     use crate::*;
     pub type MachineCode = unsafe fn(*mut u8, usize, *mut u8, usize, usize, usize) -> u64;
     /// ghost: which program (and mode) this code was compiled from
-    pub struct JitMemory<'a> { pub from: ProgTag, pub use_mbuff: bool, pub update_data_ptr: bool, pub _p: core::marker::PhantomData<&'a ()> }
+    pub struct JitMemory<'a> { pub from: ProgTag, pub helpers_ver: u32, pub use_mbuff: bool, pub update_data_ptr: bool, pub _p: core::marker::PhantomData<&'a ()> }
     unsafe fn entry(mbuff: *mut u8, mbuff_len: usize, mem: *mut u8, mem_len: usize, d: usize, e: usize) -> u64 {
         unsafe {
             if NATIVE_CALLS < 250 { NATIVE_CALLS += 1; }
@@ -131,11 +134,11 @@ pub mod jit {
     impl<'a> JitMemory<'a> {
         #[cfg(feature = "std")]
         pub fn new(prog: &[u8], _helpers: &HashMap<u32, ebpf::Helper>, use_mbuff: bool, update_data_ptr: bool) -> Result<JitMemory<'a>, Error> {
-            if kani::any() { Ok(JitMemory { from: tag(prog), use_mbuff, update_data_ptr, _p: core::marker::PhantomData }) } else { Err(Error) }
+            if kani::any() { Ok(JitMemory { from: tag(prog), helpers_ver: _helpers.ver, use_mbuff, update_data_ptr, _p: core::marker::PhantomData }) } else { Err(Error) }
         }
         #[cfg(not(feature = "std"))]
         pub fn new(prog: &[u8], _exec: &'a mut [u8], _helpers: &HashMap<u32, ebpf::Helper>, use_mbuff: bool, update_data_ptr: bool) -> Result<JitMemory<'a>, Error> {
-            if kani::any() { Ok(JitMemory { from: tag(prog), use_mbuff, update_data_ptr, _p: core::marker::PhantomData }) } else { Err(Error) }
+            if kani::any() { Ok(JitMemory { from: tag(prog), helpers_ver: _helpers.ver, use_mbuff, update_data_ptr, _p: core::marker::PhantomData }) } else { Err(Error) }
         }
         pub fn get_prog(&self) -> MachineCode { unsafe { NATIVE_FROM = self.from; } entry }
     }
@@ -144,12 +147,12 @@ pub mod jit {
 pub mod cranelift {
     use crate::lib::*;
     use crate::*;
-    pub struct CraneliftCompiler;
-    pub struct CraneliftProgram { pub from: ProgTag }
+    pub struct CraneliftCompiler { helpers_ver: u32 }
+    pub struct CraneliftProgram { pub from: ProgTag, pub helpers_ver: u32 }
     impl CraneliftCompiler {
-        pub fn new(_helpers: HashMap<u32, ebpf::Helper>) -> Self { CraneliftCompiler }
+        pub fn new(_helpers: HashMap<u32, ebpf::Helper>) -> Self { CraneliftCompiler { helpers_ver: _helpers.ver } }
         pub fn compile_function(self, prog: &[u8]) -> Result<CraneliftProgram, Error> {
-            if kani::any() { Ok(CraneliftProgram { from: tag(prog) }) } else { Err(Error) }
+            if kani::any() { Ok(CraneliftProgram { from: tag(prog), helpers_ver: self.helpers_ver }) } else { Err(Error) }
         }
     }
     impl CraneliftProgram {
